@@ -826,4 +826,15 @@ example : interval_IntersectionOfSomeIntervalLists [[⟨0, 5, false⟩, ⟨7, 9,
     = some (some [⟨4, 4, true⟩, ⟨7, 8, false⟩]) := by decide
 example : interval_Intersection [⟨0, 3, true⟩] [⟨3, 5, false⟩] = some (some [⟨3, 3, true⟩]) := by decide
 
+/-! ### why the hypothesis `PosOK`: the excluded point, evaluated
+
+    An operand that starts AT MIN_INT64 writes the sentinel itself into its slot, which the sweep reads as "closed":
+    the translated code returns the empty list where the model (and set theory) say `[MIN, 5)`. The real code does the
+    same (`[MinInt64, 5).Intersection([MinInt64, 5))` prints the empty list; run in the fourth session). It lies far
+    outside C04's stated domain (|x| < 2^62) and is recorded in DESIGN as the boundary of the tie, not as a finding. -/
+example : interval_IntersectionOfSomeIntervalLists
+    [[⟨-9223372036854775808, 5, false⟩], [⟨-9223372036854775808, 5, false⟩]] = some (some []) := by decide
+example : intersectMany [[⟨-9223372036854775808, 5, false⟩], [⟨-9223372036854775808, 5, false⟩]]
+    = some [⟨-9223372036854775808, 5, false⟩] := by decide
+
 end Starcal.SrcTie
